@@ -6,7 +6,7 @@
 namespace sim {
 namespace {
 
-struct Grp { uint32_t offset, size; int type; bool enabled; std::vector<uint8_t> ram0, def, nvmModel; bool torn = false; bool ramUnknown = false; bool absent = false; };
+struct Grp { uint32_t offset, size; int type; bool enabled; uint32_t cap = 1; std::vector<uint8_t> ram0, def, nvmModel; bool torn = false; bool ramUnknown = false; bool absent = false; };
 
 struct ParaRun : NodeEnv {
     std::vector<Grp> g; int nSub = 1; size_t nvmSize = 0; std::vector<uint32_t> writesPerOp, readsPerOp; bool injected = false;
@@ -20,7 +20,7 @@ struct ParaRun : NodeEnv {
 
     void buildNode(bool first) {
         specs.clear(); add_mandatory(specs, 1);
-        std::vector<ParaSpec> ps; for (auto &x : g) { ParaSpec s; s.offset = x.offset; s.size = x.size; s.type = x.type; s.value = x.enabled ? CO_PARA___E : 0; ps.push_back(s); }
+        std::vector<ParaSpec> ps; for (auto &x : g) { ParaSpec s; s.offset = x.offset; s.size = x.size; s.type = x.type; s.value = x.cap; ps.push_back(s); }
         add_typed(specs, T_PARASTORE, 0x1010, 0, CO_OBJ_D___R_, (uint32_t)nSub); add_typed(specs, T_PARARESTORE, 0x1011, 0, CO_OBJ_D___R_, (uint32_t)nSub);
         for (int s = 1; s <= nSub; s++) { if (s == subgap) continue; int gi = grpOfSub(s); add_typed(specs, T_PARASTORE, 0x1010, (uint8_t)s, CO_OBJ_____RW, 0, gi); add_typed(specs, T_PARARESTORE, 0x1011, (uint8_t)s, CO_OBJ_____RW, 0, gi); }
         NodeCfg cfg; cfg.nodeId = 1; cfg.freq = 1000; cfg.tmrNum = 4;
@@ -36,7 +36,7 @@ struct ParaRun : NodeEnv {
     // short length depends on the size of the call that is hit: install lazily through the per-call hook values
     void setup() {
         nSub = (int)plan.c("nsub", 1); if (nSub < 1) nSub = 1; if (nSub > 5) nSub = 5; size_t ng = nSub == 1 ? 1 : (size_t)nSub - 1; uint32_t off = (uint32_t)plan.c("base", 0);
-        for (size_t i = 0; i < ng; i++) { Grp x; x.size = (uint32_t)plan.c("size" + std::to_string(i), 4); if (x.size < 1) x.size = 1; if (x.size > 64) x.size = 64; x.offset = off; off += x.size + (uint32_t)plan.c("gap" + std::to_string(i), 0); x.type = plan.c("type" + std::to_string(i), 0) ? CO_RESET_COM : CO_RESET_NODE; x.enabled = plan.c("en" + std::to_string(i), 1) != 0;
+        for (size_t i = 0; i < ng; i++) { Grp x; x.size = (uint32_t)plan.c("size" + std::to_string(i), 4); if (x.size < 1) x.size = 1; if (x.size > 64) x.size = 64; x.offset = off; off += x.size + (uint32_t)plan.c("gap" + std::to_string(i), 0); x.type = plan.c("type" + std::to_string(i), 0) ? CO_RESET_COM : CO_RESET_NODE; x.cap = (uint32_t)plan.c("en" + std::to_string(i), 1) & 3; x.enabled = (x.cap & CO_PARA___E) != 0; if (x.cap == CO_PARA__A_) cov.hit("group-saves-autonomously-only");   // capability word: bit 0 'on command', bit 1 'autonomously'; only bit 0 enables the 'save' / 'load' requests
             x.ram0.resize(x.size); x.def.resize(x.size); x.nvmModel.resize(x.size); for (uint32_t b = 0; b < x.size; b++) { x.ram0[b] = (uint8_t)(0x10 * (i + 1) + b); x.def[b] = (uint8_t)(0xD0 + i + b * 3); x.nvmModel[b] = (uint8_t)(0xE0 ^ (b * 7 + i)); } g.push_back(x); }
         nvmSize = off + 8;
         subgap = (int)plan.c("subgap", 0); if (nSub < 3 || subgap < 2 || subgap > nSub) subgap = 0; if (subgap) { g[(size_t)subgap - 2].absent = true; cov.hit("1010h-with-sub-index-gap"); }
@@ -156,7 +156,7 @@ struct ParaRun : NodeEnv {
 
 Plan gen_para(Rng &r, bool thorough) {
     Plan p; int nsub = (int)r.pick<int64_t>({1, 1, 2, 3, 4, 5}); p.cfg["nsub"] = nsub; p.cfg["base"] = r.pick<int64_t>({0, 0, 3, 16}); size_t ng = nsub == 1 ? 1 : (size_t)nsub - 1;
-    for (size_t i = 0; i < ng; i++) { p.cfg["size" + std::to_string(i)] = r.chance(1, 2) ? r.range(1, 8) : r.range(1, 64); p.cfg["gap" + std::to_string(i)] = r.below(3); p.cfg["type" + std::to_string(i)] = r.below(2); p.cfg["en" + std::to_string(i)] = r.chance(5, 6); }
+    for (size_t i = 0; i < ng; i++) { p.cfg["size" + std::to_string(i)] = r.chance(1, 2) ? r.range(1, 8) : r.range(1, 64); p.cfg["gap" + std::to_string(i)] = r.below(3); p.cfg["type" + std::to_string(i)] = r.below(2); p.cfg["en" + std::to_string(i)] = r.chance(4, 6) ? 1 : r.pick<int64_t>({0, 2, 2, 3}); }
     if (nsub >= 3 && r.chance(1, 4)) p.cfg["subgap"] = r.range(2, nsub);   // a sub-index that is not implemented
     int n = (int)r.range(2, thorough ? 16 : 10);
     for (int i = 0; i < n; i++) {
